@@ -122,5 +122,6 @@ def run(repo, check):
     for f in r4.findings:
         f.rule = 'C03.R4'
     check.add(r4)
+    check.run_rule(c02.rule_r6, repo, 'C03.R5')
     check.assumptions = ['range refusal itself is bitstring\'s: a value handed to it unchanged that does not fit the field raises (trusted base)',
                          'the half-unit quantisation bound and the byte-identity of repeated round trips are runtime facts and are not decided']
